@@ -2,6 +2,7 @@
 # seedtest.sh <seed-dir-name> <Cxx> [<Cyy> ...] : apply seeded patch to /repo, run quick checks, revert.
 s=$1; shift
 cd /verif
+trap 'git -C /repo checkout -- . ' EXIT PIPE INT TERM
 git -C /repo apply /verif/seeded/$s/patch.diff || { echo "cannot apply"; exit 2; }
 for c in "$@"; do echo "== $c on seed $s"; ./check $c --tier ${TIER:-quick} > /tmp/seedtest.out 2>/dev/null; rc=$?; cut -c1-300 /tmp/seedtest.out | head -${LINES_MAX:-6}; echo "rc=$rc"; done
 git -C /repo checkout -- .
